@@ -450,12 +450,32 @@ def r12e(ctx, reg):
         if not ok:
             ctx.report("R12e", f, f.node, f"{q} without from_tag", f"{q} no longer wraps its result through the registry dispatch")
     # the dispatchers consult the registry keyed by the lxml tag
+    def reads_registry(node) -> bool:
+        return any(isinstance(n, ast.Call) and isinstance(n.func, ast.Attribute) and n.func.attr == "get" and isinstance(n.func.value, ast.Name)
+                   and n.func.value.id == "_class_registry" for n in walk_no_nested(node)) or \
+            any(isinstance(n, ast.Subscript) and isinstance(n.value, ast.Name) and n.value.id == "_class_registry" for n in walk_no_nested(node))
+
     for q in ("Element.from_tag", "Element.from_tag_for_clone"):
         f = repo.func(q)
-        ok = any(isinstance(n, ast.Call) and isinstance(n.func, ast.Attribute) and n.func.attr == "get" and isinstance(n.func.value, ast.Name)
-                 and n.func.value.id == "_class_registry" for n in walk_no_nested(f.node))
-        ctx.instance("R12e", f"{f.file}:{f.ident}", "class chosen by _class_registry.get(tag, cls)", ok=ok)
+        ok = reads_registry(f.node)
+        memo = None
         if not ok:
+            # one level of helpers: the lookup may live in a module function — but the registry is mutable, so it must not be memoised
+            for c in walk_no_nested(f.node):
+                if isinstance(c, ast.Call) and isinstance(c.func, ast.Name):
+                    h = repo.resolve_name(c.func.id, f.module)
+                    if isinstance(h, FuncInfo) and reads_registry(h.node):
+                        decos = [ast.unparse(d) for d in h.node.decorator_list]
+                        if any("cache" in d for d in decos):
+                            memo = (h, decos)
+                        else:
+                            ok = True
+        ctx.instance("R12e", f"{f.file}:{f.ident}", "class chosen by a live read of _class_registry", ok=ok, nontrivial=True)
+        if memo is not None:
+            ctx.report("R12e", memo[0], memo[0].node, f"{memo[0].name} memoises the registry lookup ({', '.join(memo[1])})",
+                       f"{q} resolves the class through {memo[0].name}, which is memoised although register_element_class can add classes later: a tag seen "
+                       f"before its class was registered comes back as plain Element for ever")
+        elif not ok:
             ctx.report("R12e", f, f.node, "registry lookup missing", f"{q} does not choose the class from _class_registry")
 
 
@@ -661,6 +681,14 @@ SEEDS = [
     Seed("direct wrapper construction bypassing the registry", "fault", "src/odfdo/element.py",
          "            return Element.from_tag(result[0])  # type:ignore\n        return None\n\n    def _get_element_idx(",
          "            return Element(tag_or_elem=result[0])  # type:ignore\n        return None\n\n    def _get_element_idx(", "R12e"),
+    Seed("registry lookup memoised", "fault", "src/odfdo/element.py",
+         "        klass = _class_registry.get(elem.tag, cls)\n        return klass(tag_or_elem=elem)",
+         "        klass = _registered_class(elem.tag) or cls\n        return klass(tag_or_elem=elem)", "R12e",
+         edits=[("src/odfdo/element.py", "def register_element_class(cls: type[Element]) -> None:", "@cache\ndef _registered_class(tag):\n    return _class_registry.get(to_str(tag))\n\n\ndef register_element_class(cls: type[Element]) -> None:")]),
+    Seed("registry lookup through a plain helper", "neutral", "src/odfdo/element.py",
+         "        klass = _class_registry.get(elem.tag, cls)\n        return klass(tag_or_elem=elem)",
+         "        klass = _registered_class(elem.tag) or cls\n        return klass(tag_or_elem=elem)",
+         edits=[("src/odfdo/element.py", "def register_element_class(cls: type[Element]) -> None:", "def _registered_class(tag):\n    return _class_registry.get(to_str(tag))\n\n\ndef register_element_class(cls: type[Element]) -> None:")]),
     Seed("unknown prefix in a PropDef", "fault", "src/odfdo/section.py", 'PropDef("name", "text:name")', 'PropDef("name", "txt:name")', "R12f"),
     Seed("unknown prefix in set_attribute", "fault", "src/odfdo/table.py",
          'self.set_attribute("table:protection-key", key)', 'self.set_attribute("tabel:protection-key", key)', "R12f"),
